@@ -179,7 +179,8 @@ func (m *Manager) handlePotentialData(ctx context.Context, bz []byte, daHeight u
 	m.dataCache.SetDAIncluded(dataHashStr, daHeight)
 	m.sendNonBlockingSignalToDAIncluderCh()
 	m.logger.Info("signed data marked as DA included, dataHash: ", dataHashStr, "daHeight: ", daHeight, "height: ", signedData.Height())
-	if !m.dataCache.IsSeen(dataHashStr) {
+	// entries without a height were written by earlier versions (persisted cache)
+	if !m.dataCache.IsSeen(dataHashStr) && !m.dataCache.IsSeen(dataSeenKey(dataHashStr, signedData.Height())) {
 		select {
 		case <-ctx.Done():
 			return
